@@ -28,6 +28,8 @@ SCENARIOS = {
     "two_workers_both_directions": (2, [("ann", 0, 0), ("ann", 1, 1), ("flush",), ("ann", 1, 2), ("flush",)]),
     "three_workers": (3, [("ann", 0, 0), ("ann", 0, 1), ("flush",), ("ann", 1, 2), ("flush",)]),
     "three_workers_peer_drops": (3, [("ann", 0, 0), ("flush",), ("drop", 2), ("ann", 0, 1), ("ann", 1, 2), ("flush",)]),
+    # two senders at once: pieces of one sender's id can only interleave with another sender's bytes on a third worker's stream
+    "three_workers_interleaved": (3, [("ann", 0, 0), ("ann", 1, 1), ("flush",), ("ann", 2, 2), ("ann", 0, 3), ("flush",)]),
     # the peer goes away with a connection reset (the server's read raises) instead of a clean end of stream, half an id sent
     "three_workers_peer_resets": (3, [("ann", 0, 0), ("flush",), ("half", 2), ("reset", 2), ("ann", 0, 1), ("ann", 1, 2), ("flush",)]),
 }
@@ -208,7 +210,10 @@ def cut_plans(name, k, ns):
 RW_EV = make_event("A", 1, 300, [["t", "x"], ["e", "ab" * 32]], "announced across workers")
 RW_EV2 = make_event("A", 0, 301, [], "{}")
 RW_EV3 = make_event("A", 20001, 302, [["t", "x"]], "ephemeral, announced like any other event")
-RW_EVENTS = {"tagged": RW_EV, "kind0": RW_EV2, "ephemeral": RW_EV3}
+RW_EARLY = make_event("B", 1, 299, [], "accepted while this worker's notifier client had not connected yet")
+# "early": the subscriber's worker accepted RW_EARLY before its notifier client was connected (that announcement fails); afterwards
+# the OTHER worker accepts RW_EV, which must still reach the subscriber
+RW_EVENTS = {"tagged": RW_EV, "kind0": RW_EV2, "ephemeral": RW_EV3, "early": RW_EV}
 
 
 class JobWriter:
@@ -277,6 +282,17 @@ def rw_scenario(backend, policy, evname):
             pending.append((r_cli, w_cli))
             loop.create_task(server.handle_notify(r_srv, w_srv))
         loop.run_coro(st2.setup(), horizon=1e6)
+        if evname == "early":
+            if w.storage.notifier is None or w.storage.notifier.writer is not None:
+                raise HarnessError("the notifier client of worker 1 is already connected")
+            c0 = w.connect("early", "3.3.3.3")
+            w.run(0.25)
+            w.send("early", ["EVENT", RW_EARLY], 0.25)
+            if not any(k == "send" and p.startswith('["OK"') and "true" in p for k, _, p in c0.transcript):
+                raise HarnessError("the early event was not accepted: %r" % (c0.transcript[-2:],))
+            c0.drop()
+            w.run(0.25)
+            del w.conns["early"]
         # both NotifyClients (worker 1's was created by World's storage.setup()) are still in their initial sleep(2): let them connect
         loop.drain(horizon=10.0)
         if w.storage.notifier is None or w.storage.notifier.writer is None or st2.notifier.writer is None:
@@ -285,7 +301,7 @@ def rw_scenario(backend, policy, evname):
         w._extra_storages = [st2]
 
     def connect(w, name, addr):
-        return w.connect(name, addr, storage=state["st2"] if name == "sub" else None)
+        return w.connect(name, addr, storage=state["st2"] if name == ("pub" if evname == "early" else "sub") else None)
 
     def finish(w, x):
         import sqlalchemy as sa
@@ -313,7 +329,7 @@ def rw_cases(tier):
 
     out = []
     for policy in ("disk-first", "network-first"):
-        for evname in ("tagged", "kind0", "ephemeral"):
+        for evname in ("tagged", "kind0", "ephemeral", "early"):
             scn = rw_scenario("sql", policy, evname)
             out.append(("rw", policy, evname, ()))
             if tier == "thorough":
@@ -355,7 +371,9 @@ def run_rw(case, tier):
             viol.append({"case": cid, "clause": "other-worker-pushes-like-a-local-event", "sig": sig,
                          "detail": "event accepted by worker 1 reached the subscriber of worker 2 %d times (expected exactly once) | %s schedule=%s" % (
                              len(pushes), scn.name, x.choices)})
-        if x.world.loop.handler_errors:
+        # (in the "early" scenario the failed announcement of the not-yet-connected worker is an unretrieved task exception by design of
+        # the unchanged code; the property only speaks about connected workers)
+        if x.world.loop.handler_errors and evname != "early":
             viol.append({"case": cid, "clause": "no-stray-exceptions", "sig": sig, "detail": repr(x.world.loop.handler_errors[:2])})
 
     if not prefix:
